@@ -18,7 +18,7 @@ ASSUMPTIONS = ['line = number of line breaks (CRLF, CR or LF) in the final resul
                'return what they are given (or a same-line rewrite of it), so line breaks enter only through the configured newline and through multi-line placeholders',
                'text with explicit fields is only put on leaves (a value with fields AND children is split around the children: two values)',
                'the 1,2,3... clause is checked when the abbreviation has no explicit field and no snippet name whose definition carries fields']
-FLOORS = {'quick': {'nothing-to-wrap': 4000, 'run': 22000, 'callback-event': 1500000, 'stylesheet-run': 3500}, 'thorough': {'nothing-to-wrap': 75000, 'run': 450000, 'callback-event': 12000000, 'stylesheet-run': 60000}}
+FLOORS = {'quick': {'grouped-fields': 5000, 'nothing-to-wrap': 4000, 'run': 22000, 'callback-event': 1500000, 'stylesheet-run': 3500}, 'thorough': {'grouped-fields': 90000, 'nothing-to-wrap': 75000, 'run': 450000, 'callback-event': 12000000, 'stylesheet-run': 60000}}
 REQUIRED_MONITORS = ['oracle:callback-position', 'oracle:tabstop-numbering', 'probe:offset-bookkeeping']
 N = {'quick': 2500, 'thorough': 30000}
 MARKUP = ['html', 'xml', 'jsx', 'vue', 'pug', 'haml', 'slim']
@@ -207,6 +207,52 @@ class Mon:
                         'events(first 6)': [list(e) for e in run.ev[:6]]})
 
 
+# every VALUE writes its fields with placeholders of its own letter (i: id, c: class, t/u: other attributes, x: text) followed by the written index
+GROUPED = {'i': ['${1:i1}', 'p${1:i1}-${2:i2}', '${2:i2}${1:i1}', '${3:i3}'], 'c': ['${1:c1}', 'k ${1:c1}', '${1:c1} ${2:c2}', '${3:c3}-w', '${2:c2} m ${1:c1}'],
+           't': ['${1:t1}', '${2:t2} ${1:t1}', 'a${4:t4}'], 'u': ['${1:u1}', '${1:u1}${1:u1}'], 'x': ['${1:x1}', 'a ${2:x2} b ${1:x1}']}
+GROUPED_FORMS = ['E[id="I" class="C"]', 'E[class="C" id="I"]', 'E[id="I" class="C" t="T"]', 'E[t="T" id="I" u="U" class="C"]', 'E#j[class="C" t="T"]', 'E.k[id="I"]{X}', 'E[class="C"]{X}',
+                 'E[id="I" class="C"]>p[t="T"]', 'x-p[t="T"]>E[id="I" class="C"]+q[u="U"]', 'E[id="I"]+E[class="C"]', 'E[id="I" class="C"]*2']
+RE_GMARK = re.compile('⟦(\\d+):([ictux])(\\d)⟧')
+
+
+def grouped_case(rng):
+    form = rng.choice(GROUPED_FORMS)
+    s = form.replace('E', rng.choice(['div', 'p', 'section', 'x-y']))
+    for letter, g in (('I', 'i'), ('C', 'c'), ('T', 't'), ('U', 'u'), ('X', 'x')):
+        s = s.replace(letter, rng.choice(GROUPED[g]))
+    return s
+
+
+def check_grouped(out, copies):
+    """fields of one value keep their written differences; the numbers of different values never collide.  Works for every syntax: a value is
+    recognised by the letter of its placeholders, not by reading the output's grammar"""
+    order = []
+    fresh = True
+    for n, ph in RE_MARK.findall(out):
+        m = re.fullmatch(r'([ictux])(\d)', ph)
+        if not m:
+            fresh = True        # a tabstop of another kind stands between two values (a comment repeats the id / class value after the element's content)
+            continue
+        g, k = m.group(1), int(m.group(2))
+        # one value = one uninterrupted run of one letter
+        if fresh or order[-1][0] != g:
+            order.append((g, []))
+        fresh = False
+        order[-1][1].append((int(n), k))
+    taken = {}
+    for idx, (g, marks) in enumerate(order):
+        if len(set(n - k for n, k in marks)) != 1:
+            return 'explicit fields of one value lost their relative numbering: value %r fields %r' % (g, marks)
+        for n, k in marks:
+            if n in taken and taken[n] != idx:
+                return 'tabstop %d is used by two values (%r and %r)' % (n, order[taken[n]][0], g)
+            taken[n] = idx
+    for n, ph in RE_MARK.findall(out):
+        if ph == '' and int(n) in taken:
+            return 'the automatic tabstop %s collides with a field of value %r' % (n, order[taken[int(n)]][0])
+    return None
+
+
 NOTEXT_NAMES = ['p', 'div', 'li', 'span', 'br', 'img', 'a', 'td', 'x-y', 'hr']
 NOTEXT_PARENTS = ['p', 'div', 'li', 'span', 'a', 'td', 'x-y']       # (an empty element with children is written with a closing tag: keep the reader simple)
 NOTEXT_FORMS = ['X*', 'P>X*', '(P>Y)*', 'Q>P*>Y', 'X*+Z', 'X.c1*', 'P>(X+Y)*', 'X[d1]*', 'X', 'P>X', 'X+Y', 'P>X+Y', 'P*2>Y*', '(X*)+Z', 'P>Q>X*']
@@ -279,6 +325,23 @@ def run_shard(desc, ctx):
                 if t is not None:
                     cfg['text'] = t
                 mon.check(a, cfg, 'id', {'numbering': True, 'snippet_names': False, 'explicit': False}, 'nothing-to-wrap')
+            if i % 4 == 1:
+                a = grouped_case(rng)
+                gs = rng.choice(MARKUP)
+                ctx.ev('grouped-fields')
+                ctx.mon('oracle:fields-of-different-values-never-collide')
+                gr = Run('id')
+                gcfg = {'syntax': gs, 'options': dict(opts, **{'output.field': gr.field, 'output.text': gr.text})}
+                r = core.call(mon.expand, a, gcfg)
+                gcase = {'abbr': a, 'config': {'syntax': gs, 'options': opts}, 'mode': 'id', 'flags': {'grouped': True}}
+                if r[0] == 'exc':
+                    ctx.violation('exception', gcase, {'exc': list(core.exc_site(r[1])), 'msg': str(r[1])[:100]})
+                else:
+                    why = check_grouped(r[1], 2 if a.endswith('*2') else 1)
+                    if why:
+                        ctx.violation('tabstop-numbering', gcase, {'why': why, 'output': r[1][:300]})
+                    else:
+                        ctx.state('grouped', gs)
             if i % 6 == 0:
                 a = '+'.join(rng.choice(CSS_ABBRS) for _ in range(rng.randint(1, 3)))
                 sopts = {'output.newline': rng.choice(['\n', '\r\n', '\r']), 'output.baseIndent': rng.choice(['', '  ', '\t'])}
@@ -292,6 +355,17 @@ def run_shard(desc, ctx):
 
 def replay(case, ctx):
     if 'abbr' not in case:
+        return
+    if case['flags'].get('grouped'):
+        mon = Mon(ctx)
+        gr = Run('id')
+        cfg = dict(case['config'])
+        cfg['options'] = dict(cfg.get('options', {}), **{'output.field': gr.field, 'output.text': gr.text})
+        ctx.ev('replay')
+        r = core.call(mon.expand, case['abbr'], cfg)
+        why = check_grouped(r[1], 1) if r[0] == 'ok' else 'exception'
+        if why:
+            ctx.violation('tabstop-numbering', case, {'why': why})
         return
     Mon(ctx).check(case['abbr'], case['config'], case['mode'], case['flags'], 'replay')
 
